@@ -89,6 +89,16 @@ def sequence_of(fn: ast.FunctionDef, who: str, receivers=("self",), _depth: int 
                 if isinstance(sub, (ast.Assign, ast.AnnAssign)) and sub.value is not None:
                     exprs.append(sub.value)
         for e in exprs:
+            # helper method applied to a freshly constructed instance: self._helper(type(self)(…)[.chain…])
+            if isinstance(e, ast.Call) and isinstance(e.func, ast.Attribute) and norm(e.func.value) == "self" and e.func.attr in METHODS and _depth < 2 \
+                    and e.args and any(isinstance(x, ast.Call) and _is_ctor(x) for x in ast.walk(e.args[0])):
+                inner_fn = ast.FunctionDef(name="_inner", args=fn.args, body=[ast.Expr(value=e.args[0])], decorator_list=[], returns=None)
+                steps += sequence_of(inner_fn, who, receivers, _depth + 1)
+                h = METHODS[e.func.attr]
+                hp = [a.arg for a in h.args.args if a.arg != "self"]
+                if hp:
+                    steps += sequence_of(h, f"{who}→{e.func.attr}", (hp[0],), _depth + 1)
+                continue
             base, calls = chain_calls(e)
             if not calls:
                 if isinstance(e, ast.Call) and _is_ctor(e):
